@@ -48,10 +48,11 @@ type LifeScenario struct {
 	CloseFromBg        bool   `json:"close_from_bg"`          // the Close of cause "close" is called by a background handler
 	CancelEarly        string `json:"cancel_early"`           // "" | before | during : the context given to ConnectContext is cancelled before the call / while the (context-unaware) dialer is at work
 	SilentMs           int    `json:"silent_ms"`
-	PeerStalled        bool   `json:"peer_stalled"`    // with slow_server: the peer never reads again (a write in flight returns only when the socket is closed)
-	TimeoutMs          int    `json:"timeout_ms"`      // Config.Timeout (0 = the scenario's default of 3 s): a legal, rarely tuned value
-	OverlapConnect     bool   `json:"overlap_connect"` // two goroutines call Connect at about the same time while the client is down; the first one's dial takes a while
-	HoldMs             int    `json:"hold_ms"`         // the gated foreground handler keeps working this long after the cause (longer than Timeout, say)              // before the cause the server stays connected but silent for this long, never answering the client's PINGs (Timeout is set to a fifth of it)
+	PeerStalled        bool   `json:"peer_stalled"`                  // with slow_server: the peer never reads again (a write in flight returns only when the socket is closed)
+	TimeoutMs          int    `json:"timeout_ms"`                    // Config.Timeout (0 = the scenario's default of 3 s): a legal, rarely tuned value
+	CloseInDiscHandler bool   `json:"close_in_disconnected_handler"` // the DISCONNECTED handler calls Close itself (a shared shutdown routine): on a client that is not connected that does nothing, and returns
+	OverlapConnect     bool   `json:"overlap_connect"`               // two goroutines call Connect at about the same time while the client is down; the first one's dial takes a while
+	HoldMs             int    `json:"hold_ms"`                       // the gated foreground handler keeps working this long after the cause (longer than Timeout, say)              // before the cause the server stays connected but silent for this long, never answering the client's PINGs (Timeout is set to a fifth of it)
 }
 
 type LifeResult struct {
@@ -172,6 +173,9 @@ func runLifeScenario(sc LifeScenario) LifeResult {
 		if atomic.LoadInt32(&gatedEntered) > atomic.LoadInt32(&gatedDone) && lg.count("DISCONNECTED") == 0 {
 			// nothing of a connection is delivered after its DISCONNECTED, and its handlers have finished by then
 			lg.add("stale-handler: DISCONNECTED delivered while a foreground handler of that connection was still running")
+		}
+		if sc.CloseInDiscHandler {
+			c.Close() // must return: the handler logs only afterwards
 		}
 		lg.add("DISCONNECTED flag=%s", flagStr(c.Connected()))
 		cyc.Lock()
@@ -402,6 +406,8 @@ func runLifeScenario(sc LifeScenario) LifeResult {
 					default:
 						sb.WriteString(":me MODE me +i\r\n")
 					}
+				} else if sc.BacklogKind == "pings" { // lines the client answers itself (PONG), whoever has a handler for them
+					sb.WriteString(fmt.Sprintf("PING :backlog-%d\r\n", k))
 				} else {
 					sb.WriteString(fmt.Sprintf(":n!u@h NOTICE me :backlog %d\r\n", k))
 				}
